@@ -3,7 +3,7 @@ from __future__ import annotations
 
 import z3
 
-from .values import SV, SymSeq, Unsupported, PyRaise, ExcVal
+from .values import SV, SymSeq, Unsupported, PyRaise, ExcVal, Ev
 
 
 class SymMap:
@@ -195,5 +195,6 @@ class AbsMap:
             for ent in self.q:
                 ent[1] = False
             self.cleared = True
+            I.trace.append(Ev(f"{self.name}.clear", (None, None, "cleared-in-place")))
             return None
         return NotImplemented
